@@ -357,8 +357,13 @@ func snapshotPath(c *Config, tName string, isStandalone bool) (string, string) {
 	callerFilename := baseCaller(3)
 
 	dir := c.snapsDir
+	if isStandalone {
+		// the standalone path is a format for the ordinal (`_%d`): every other '%' must stay literal
+		callerFilename = strings.ReplaceAll(callerFilename, "%", "%%")
+		dir = strings.ReplaceAll(dir, "%", "%%")
+	}
 	if !filepath.IsAbs(dir) && !isTrimBathBuild {
-		dir = filepath.Join(filepath.Dir(callerFilename), c.snapsDir)
+		dir = filepath.Join(filepath.Dir(callerFilename), dir)
 	}
 
 	snapPath := filepath.Join(dir, constructFilename(c, callerFilename, tName, isStandalone))
@@ -382,7 +387,8 @@ func constructFilename(c *Config, callerFilename, tName string, isStandalone boo
 	}
 
 	if isStandalone {
-		filename += "_%d"
+		filename = strings.ReplaceAll(filename, "%", "%%") + "_%d"
+		return filename + snapsExt + strings.ReplaceAll(c.extension, "%", "%%")
 	}
 	filename += snapsExt + c.extension
 
